@@ -6,7 +6,8 @@ open PrologVerif PrologVerif.Driver
 def handlers : List (String × Handler) :=
   [ ("c18.hist", C18.handler),
     ("c11.collect", C11.handler),
-    ("c11.collect.pinned", C11.handlerPinned) ]
+    ("c11.collect.pinned", C11.handlerPinned),
+    ("c11.variant", C11.variantHandler) ]
 
 partial def loop (h : IO.FS.Stream) (out : IO.FS.Stream) (f : Handler) : IO Unit := do
   let line ← h.getLine
